@@ -18,7 +18,7 @@ try:
     runs = []
     for d in demos:
         txt = open(os.path.join(out, d)).read()
-        m = re.search(r"[Ll]ocation in the repository:\s*(\S+)", txt) or re.search(r"(?:goes|go) (?:in|to|under)\s+(\S+\.go)", txt)
+        m = re.search(r"[Ll]ocation(?: in the repository)?:\s*(\S+)", txt) or re.search(r"Place this file at:\s*(\S+)", txt) or re.search(r"(?:goes|go) (?:in|to|under)\s+(\S+\.go)", txt)
         if not m:
             m2 = re.search(r"(\S+/)\s*$", "")
         loc = m.group(1) if m else None
